@@ -10,6 +10,7 @@ import (
 	"path/filepath"
 	"sort"
 	"strings"
+	"sync"
 
 	"golang.org/x/tools/go/packages"
 	"golang.org/x/tools/go/ssa"
@@ -33,6 +34,8 @@ type Prog struct {
 	fvAll     map[*ssa.Function]bool
 	fvBound   map[*ssa.Function]bool
 	fnIDs     map[string]int
+	mu, mu2   sync.Mutex
+	tblOnce   sync.Once
 	VerifDir  string
 	tbl       *Tables
 	tblErr    error
